@@ -142,7 +142,17 @@ def r_C17jkl(root):
             if isinstance(n, ast.Attribute) and n.attr == "all_models" and isinstance(n.ctx, ast.Load):
                 inst += 1
                 par = getattr(n, "_parent", None)
-                ok = isinstance(par, ast.Call) and callee_name(par) == "GlobalModelRepository" and any(a is n for a in par.args)
+                def _ctor_arg(x):
+                    p_ = getattr(x, "_parent", None)
+                    return isinstance(p_, ast.Call) and callee_name(p_) == "GlobalModelRepository" and any(a is x for a in p_.args)
+                ok = _ctor_arg(n)
+                if not ok:
+                    # a local alias (possibly chosen by a conditional expression) that is only handed to the constructor / tested for None
+                    st_ = stmt_of(n); f_ = enclosing_func(n)
+                    if isinstance(st_, ast.Assign) and len(st_.targets) == 1 and isinstance(st_.targets[0], ast.Name) and f_ is not None and (st_.value is n or (isinstance(st_.value, ast.IfExp) and (st_.value.body is n or st_.value.orelse is n))):
+                        v_ = st_.targets[0].id
+                        uses_ = [x for x in own_nodes(f_) if isinstance(x, ast.Name) and x.id == v_ and isinstance(x.ctx, ast.Load)]
+                        ok = bool(uses_) and all(_ctor_arg(x) or (isinstance(getattr(x, "_parent", None), ast.Compare) and isinstance(x._parent.ops[0], (ast.Is, ast.IsNot))) for x in uses_)
                 ob("C17", "C17.j", rel, qualname(n), " ".join(ast.unparse(stmt_of(n)).split())[:90], ok)
                 if not ok: out.append(Finding("C17", "C17.j", rel, qualname(n), " ".join(ast.unparse(stmt_of(n)).split())[:100], "names are looked up in all_models (every model of the repository) instead of the models this model imports (local_models): a reference binds to an element of a file that the referencing file does not import", witness="a imports b imports c; a name defined only in c referenced from a"))
     t = load(root, S)
